@@ -344,6 +344,16 @@ def c09_stacks(quick, r):
         mk = leaves[n][0]
         S.append((f"X(patchwise({n}))", (lambda mk=mk: XTransformWrapper(ImgDS(6, "tensor16"), cont["patchwise"][0](mk))), "x"))
 
+    # a SEEDED transform wrapper above an UNSEEDED stochastic one: the lower one still gets its own stream per worker
+    for n in names[:3]:
+        mk, k = leaves[n]
+        S.append((f"Xseeded(X({n}))", (lambda mk=mk, k=k: XTransformWrapper(XTransformWrapper(ImgDS(6, k), mk()), mk(), seed=5)), "x"))
+
+    # a concat whose FIRST part is a plain root and whose second part carries the stochastic transform
+    mkc, kc = leaves[names[0]]
+    S.append((f"Mode(Concat(plain root, X({names[0]})))",
+              (lambda: ModeWrapper(KDConcatDataset([ImgDS(3, kc), XTransformWrapper(ImgDS(3, kc), mkc())]), mode="x")), "mode"))
+
     def shared_configs():
         # a seeded evaluation wrapper and an unseeded training wrapper built from the SAME configuration objects live
         # in one worker (what the interleaved scheduler's concat dataset holds); the probe returns its draws
@@ -386,6 +396,10 @@ def c09_stacks(quick, r):
 
     S.append(("Mode(X(noise)) + root KDComposeCollator[mix, mix]", (lambda: with_container("compose")), "collate"))
     S.append(("Mode(X(noise)) + root KDSingleCollatorWrapper(mix)", (lambda: with_container("wrapper")), "collate"))
+    # no wrapper at all between ModeWrapper and the root that carries the stochastic collator
+    S.append(("Mode(root + KDSingleCollatorWrapper(mix)), no wrappers",
+              (lambda: ModeWrapper(ImgDS(8, "tensor16", collators=[KDSingleCollatorWrapper(mixcol(), dataset_mode="x", return_ctx=False)]),
+                                   mode="x")), "collate"))
 
     # two different wrapper stacks over the SAME root dataset inside the interleaved concat dataset
     def interleaved_shared_root(mk, k):
